@@ -3,8 +3,9 @@
 import os, re, subprocess, sys, json
 cid, n = sys.argv[1], sys.argv[2]
 props = sys.argv[3:] or [cid]
-wt = "/tmp/seed/%s" % cid
-out = "/tmp/seed/%s-out" % cid
+BASE = os.environ.get("SEED_BASE", "/tmp/seed")
+wt = "%s/%s" % (BASE, cid)
+out = "%s/%s-out" % (BASE, cid)
 clean = "git checkout -q -- . && git clean -qfd"
 subprocess.run(clean, shell=True, cwd=wt)
 a = subprocess.run("git apply %s/patch%s.diff" % (out, n), shell=True, cwd=wt)
